@@ -15,14 +15,14 @@ VERIF = os.path.dirname(os.path.dirname(os.path.abspath(__file__)))
 
 MODES = {
     'C01': ['bnd_doc', 'bnd_tables', 'c07_ol', 'c01_colspan', 'c01_specificity', 'c20_nth', 'c01_engine', 'c01_css', 'bnd_mut'],
-    'C02': ['bnd_tables', 'bnd_doc', 'bnd_c07', 'bnd_c04', 'c02_elements'],
+    'C02': ['bnd_tables', 'bnd_doc', 'bnd_c07', 'bnd_c04', 'c02_elements', 'bnd_c12'],
     'C03': ['bnd_tables', 'bnd_doc', 'c03_elements'],
     'C04': ['bnd_c04'],
     'C05': ['bnd_tables'],
     'C06': ['bnd_tables', 'c06_positions'],
     'C07': ['bnd_c07', 'c07_ol', 'c07_compose', 'c16_compose'],
     'C08': ['bnd_c08', 'c08_elements'],
-    'C09': ['bnd_c09', 'c16_affix'],
+    'C09': ['bnd_c09', 'c16_affix', 'bnd_c12'],
     'C11': ['bnd_doc', 'bnd_tables', 'bnd_mut', 'c02_elements'],
     'C12': ['bnd_c12', 'c12_contflag'],
     'C13': ['bnd_c13', 'c13_minwrap'],
